@@ -66,6 +66,7 @@ type Rendered struct {
 	SpecIn  any    // what the specification interprets (the record as the front end presents it)
 	Text    string // JSON text / encoded form / query string / env assignments, for samples
 	Cleanup func()
+	Req     *http.Request // zhttp renderings: the request the provider was made from
 }
 
 // scalarString renders a typed leaf the way a flat source carries it.
@@ -436,7 +437,7 @@ func RenderFE(fe string, root *Node, logical Val) (*Rendered, error) {
 			k := int(fnv32(r.Text))
 			req, _ := http.NewRequest(bodyMethods[k%len(bodyMethods)], "http://example.test/x", strings.NewReader(r.Text))
 			req.Header.Set("Content-Type", jsonCTypes[(k/7)%len(jsonCTypes)])
-			r.Data = zhttp.Request(req)
+			r.Data, r.Req = zhttp.Request(req), req
 		}
 	case FEForm, FEQuery:
 		vals := url.Values{}
@@ -450,10 +451,10 @@ func RenderFE(fe string, root *Node, logical Val) (*Rendered, error) {
 			k := int(fnv32(r.Text))
 			req, _ := http.NewRequest(formMethods[k%len(formMethods)], "http://example.test/x", strings.NewReader(r.Text))
 			req.Header.Set("Content-Type", formCTypes[(k/7)%len(formCTypes)])
-			r.Data = zhttp.Request(req)
+			r.Data, r.Req = zhttp.Request(req), req
 		} else {
 			req, _ := http.NewRequest("GET", "http://example.test/x?"+r.Text, nil)
-			r.Data = zhttp.Request(req)
+			r.Data, r.Req = zhttp.Request(req), req
 		}
 	case FEEnv:
 		vals := url.Values{}
